@@ -412,6 +412,26 @@ func init() {
 				if len(pending) == 0 {
 					rules, d, statics := genIndependent(r, st, ngroups)
 					group = nil
+					if ngroups%8 == 7 {
+						// a destination written twice from sources of different kinds, after its
+						// first value was handed on: what was handed on stays as written
+						ds := append([]string{}, textDsts...)
+						for i := len(ds) - 1; i > 0; i-- {
+							j := r.intn(i + 1)
+							ds[i], ds[j] = ds[j], ds[i]
+						}
+						lit := `"` + pick(r, []string{"abcdef", "0123456789", "xy", "some longer literal value"}) + `"`
+						conv := pick(r, []string{"ivar", "uvar", "bvar", "jso.n", "jso.big", "st.Status", "jso.t", "itoa(jso.big)", "crc32(jso.s)"})
+						var ls []string
+						if r.bool() {
+							ls = []string{"ctx.cva = " + lit, ds[0] + " = cva", ds[0] + " = " + conv, "probe(\"handed-on\", cva)", ds[1] + " = cva"}
+						} else {
+							ls = []string{ds[0] + " = " + lit, ds[1] + " = " + ds[0], ds[0] + " = " + conv, ds[2] + " = " + ds[1], ds[0] + " = " + pick(r, []string{"jso.s", lit, "ivar"})}
+						}
+						st["destination re-assigned after its value was handed on"]++
+						ngroups++
+						return singleJob("chain", Job{Prog: strings.Join(ls, "\n") + "\n", doc: d.doc, Statics: statics, Fail: -1, GetVars: []string{"cva"}})
+					}
 					recycled := ngroups%4 == 2
 					if recycled {
 						// context variables on a context that an earlier decode has used
@@ -420,7 +440,7 @@ func init() {
 						srcs := []string{`"ctxlit"`, "jso.s", "77", "jso.n", `"c"`, "ivar", "jso.s2"}
 						rules = nil
 						for k, nm := range []string{"cva", "cvb", "cvc"} {
-							rules = append(rules, "ctx."+nm+" = "+srcs[(ngroups/4+2*k)%len(srcs)])
+							rules = append(rules, []string{"ctx.", "context."}[(ngroups/4+k)%2]+nm+" = "+srcs[(ngroups/4+2*k)%len(srcs)])
 						}
 						st["context variables on a recycled context"]++
 					}
@@ -741,27 +761,27 @@ func genCtxVarJob(r *prng, o genOpts, st map[string]int) Job {
 		switch r.intn(11) {
 		case 10:
 			// rebinding to an empty container: it is a value like any other
-			g.emit("ctx." + nm + " = " + pick(r, []string{"jso.ea", "jso.eo"}))
+			g.emit(g.ctxDot() + nm + " = " + pick(r, []string{"jso.ea", "jso.eo"}))
 			g.emit("probe(\"after-empty\", " + nm + ", " + nm + ".k)")
 		case 8, 9:
 			// rebinding from a source that resolves to nothing: the latest
 			// binding wins all the same (the name now reads nil)
-			g.emit("ctx." + nm + " = " + pick(r, []string{"nosuchvar", "st.Nope", "st.Finance.Nope", "ivar.x", "nosuch.path"}))
+			g.emit(g.ctxDot() + nm + " = " + pick(r, []string{"nosuchvar", "st.Nope", "st.Finance.Nope", "ivar.x", "nosuch.path"}))
 			g.emit("probe(\"after-nil\", " + nm + ")")
 		case 0:
-			g.emit("ctx." + nm + " = " + g.strLit())
+			g.emit(g.ctxDot() + nm + " = " + g.strLit())
 		case 1:
-			g.emit("ctx." + nm + " = " + g.intLit())
+			g.emit(g.ctxDot() + nm + " = " + g.intLit())
 		case 2:
 			p, _ := g.docPath(pick(r, []string{"str", "int", "bool"}))
 			if p != "" {
-				g.emit("ctx." + nm + " = " + p + pick(r, []string{"", "", " as vector", ".(static)"}))
+				g.emit(g.ctxDot() + nm + " = " + p + pick(r, []string{"", "", " as vector", ".(static)"}))
 			}
 		case 3:
-			g.emit("ctx." + nm + " = jso.o")
+			g.emit(g.ctxDot() + nm + " = jso.o")
 			g.emit("probe(" + nm + ".k, " + nm + ".deep.x, " + nm + ".nokey)")
 		case 4:
-			g.emit("ctx." + nm + " = " + pick(r, []string{"st.Name", "st.Id", "st.Status", "st.Finance.AllowBuy"}))
+			g.emit(g.ctxDot() + nm + " = " + pick(r, []string{"st.Name", "st.Id", "st.Status", "st.Finance.AllowBuy"}))
 		case 5:
 			g.emit(g.dest().text + " = " + nm)
 		case 6:
